@@ -86,8 +86,13 @@ func checkAssert(hasAssert bool, filePath string, method core_domain.CodeFunctio
 func updateMethodCallsForSelfCall(method core_domain.CodeFunction, clz core_domain.CodeDataStruct, callMethodMap map[string]core_domain.CodeFunction) []core_domain.CodeCall {
 	currentMethodCalls := method.FunctionCalls
 	for _, methodCall := range currentMethodCalls {
-		if methodCall.NodeName == clz.NodeName {
-			jMethod := callMethodMap[methodCall.BuildFullMethodName()]
+		fullMethodName := methodCall.BuildFullMethodName()
+		if methodCall.NodeName == "this" {
+			// `this.helper()` calls a method of this very class
+			fullMethodName = clz.Package + "." + clz.NodeName + "." + methodCall.FunctionName
+		}
+		if methodCall.NodeName == clz.NodeName || methodCall.NodeName == "this" {
+			jMethod := callMethodMap[fullMethodName]
 			if jMethod.Name != "" {
 				currentMethodCalls = append(currentMethodCalls, jMethod.FunctionCalls...)
 			}
